@@ -275,12 +275,13 @@ func (b *Bitmap) AddN(a ...uint64) (changed int, err error) {
 // Container objects returned from calls like Get and GetOrCreate, this
 // optimization would be less useful.
 func (b *Bitmap) DirectAddN(a ...uint64) (changed int) {
-	return b.directOpN((*Container).add, a...)
+	return b.directOpN((*Container).add, b.Containers.GetOrCreate, a...)
 }
 
 // DirectRemoveN behaves analgously to DirectAddN.
 func (b *Bitmap) DirectRemoveN(a ...uint64) (changed int) {
-	return b.directOpN((*Container).remove, a...)
+	// removing never needs a container that does not exist yet
+	return b.directOpN((*Container).remove, b.Containers.Get, a...)
 }
 
 // directOpN contains the logic for DirectAddN and DirectRemoveN. Theoretically,
@@ -288,13 +289,13 @@ func (b *Bitmap) DirectRemoveN(a ...uint64) (changed int) {
 // container level operation across a list of values and return the number of
 // trues while modifying the list of values in place to contain the
 // true-returning values in order.
-func (b *Bitmap) directOpN(op func(c *Container, v uint16) (*Container, bool), a ...uint64) (changed int) {
+func (b *Bitmap) directOpN(op func(c *Container, v uint16) (*Container, bool), get func(key uint64) *Container, a ...uint64) (changed int) {
 	hb := uint64(0xFFFFFFFFFFFFFFFF) // impossible sentinel value
 	var cont *Container
 	for _, v := range a {
 		if newhb := highbits(v); newhb != hb {
 			hb = newhb
-			cont = b.Containers.GetOrCreate(hb)
+			cont = get(hb)
 		}
 		newC, change := op(cont, lowbits(v))
 		if change {
@@ -397,6 +398,20 @@ func (b *Bitmap) Max() uint64 {
 	}
 
 	hb, c := b.Containers.Last()
+	if c.N() == 0 {
+		// the last container is empty (its bits were removed): find the last
+		// container that holds a bit
+		hb, c = 0, nil
+		citer, _ := b.Containers.Iterator(0)
+		for citer.Next() {
+			if k, kc := citer.Value(); kc.N() > 0 {
+				hb, c = k, kc
+			}
+		}
+		if c == nil {
+			return 0
+		}
+	}
 	lb := c.max()
 	return hb<<16 | uint64(lb)
 }
@@ -1054,7 +1069,15 @@ func (b *Bitmap) writeToUnoptimized(w io.Writer) (n int64, err error) {
 	// Remove empty containers before persisting.
 	//b.removeEmptyContainers()
 
-	containerCount := b.Containers.Size() - b.countEmptyContainers()
+	// count exactly the containers written below (Size() also counts nil
+	// containers, which the iterator skips)
+	containerCount := 0
+	cciter, _ := b.Containers.Iterator(0)
+	for cciter.Next() {
+		if _, c := cciter.Value(); c.N() > 0 {
+			containerCount++
+		}
+	}
 	headerSize := headerBaseSize
 	byte2 := make([]byte, 2)
 	byte4 := make([]byte, 4)
